@@ -308,6 +308,45 @@ def euler_band_cell():
                 lambda c: ["pole:%+d" % c["pole"], "delta:%g" % c["delta"]], quick=300, thorough=5000)
 
 
+def so3_tight_cell():
+    """log(exp(x)) = x for the bare SO(3) parameterisations (quaternion, DCM, MRP) at 1e-12 * conditioning instead of the general
+    1e-9: the unchanged tree is accurate to ~1e-15 here (measured over 6e4 angles 1e-8 .. pi - 1e-2), so a 'guarded' divisor or a
+    truncated constant that costs 1e-10 is visible (seed C03-r6B).  Euler is left out (gimbal band accuracy)."""
+    import casadi as ca
+    from hypothesis import strategies as st
+    fns = {}
+
+    def fn(rep):
+        if rep not in fns:
+            from cyecca.lie import group_so3 as g
+            G = {"quat": g.SO3Quat, "dcm": g.SO3Dcm, "mrp": g.SO3Mrp}[rep]
+            x = ca.SX.sym("x", 3)
+            with cy.quiet():
+                fns[rep] = ca.Function("logexp_" + rep, [x], [g.so3.elem(x).exp(G).log().param])
+        return fns[rep]
+
+    @st.composite
+    def case(draw):
+        return {"rep": draw(st.sampled_from(["quat", "dcm", "mrp"])), "axis": draw(gens.axis()),
+                "angle": draw(st.one_of(gens.fl(-8.0, 0.49).map(lambda e: 10.0 ** e), gens.fl(1e-3, PI - 1e-2)))}
+
+    def check(c):
+        th = c["angle"]
+        n = math.sqrt(sum(a * a for a in c["axis"]))
+        require(c["rep"] in ("quat", "dcm", "mrp") and 0 < th <= PI - 1e-2 and abs(n - 1) < 1e-9)
+        w = np.array(c["axis"], float) / n * th
+        got = cy.vec(fn(c["rep"])(w))
+        if not np.all(np.isfinite(got)):
+            raise Violation("SO3 %s: log(exp(x)) non-finite" % c["rep"], **c)
+        tol = 1e-12 * max(1.0, 1.0 / (PI - th))
+        err = float(np.max(np.abs(got - w)))
+        if err > tol:
+            raise Violation("SO3 %s: log(exp(x)) differs from x by %.3e > %.1e at angle %.6g (unchanged tree: ~1e-15)"
+                            % (c["rep"], err, tol, th), got=got.tolist(), x=w.tolist(), **c)
+
+    return Cell("SO3/logexp_tight", case(), check, lambda c: c["angle"] > 1e-6, lambda c: ["rep:" + c["rep"]], quick=900, thorough=20000)
+
+
 def build(tier):
     cells = []
     for gi in L.all_groups(tier):
@@ -316,6 +355,7 @@ def build(tier):
         cells.append(crossrep_cell(fam, tier))
     cells.append(euler_variant_cell())
     cells.append(euler_band_cell())
+    cells.append(so3_tight_cell())
     return {
         "cells": cells,
         "rule": RULE,
